@@ -36,7 +36,7 @@ def locateOne (L : List Label) (v : Label) (tol : Option Tol) : Except Err Nat :
     -- dist = np.abs(values - val) ; TypeError for non numeric operands
     match v.toRat?, L.mapM Label.toRat? with
     | some q, some qs =>
-      if qs.isEmpty then .error .value   -- np.argmin of an empty sequence
+      if qs.isEmpty then .error .index   -- empty axis: no label within the tolerance (`match is None`)
       else
         let dist := qs.map (fun x => ratAbs (x - q))
         let m := argminRat dist
